@@ -64,6 +64,9 @@ func (p *parsing) parseExpr(tok token, canBeSwitchGuard, canElideType, mustBeTyp
 			}
 			var typ ast.Expression
 			typ, tok = p.parseExpr(p.next(), false, false, true, false)
+			if typ == nil {
+				panic(syntaxError(tok.pos, "unexpected %s, expecting type", tok))
+			}
 			if tok.typ != tokenRightBracket {
 				panic(syntaxError(tok.pos, "unexpected %s, expecting %s", tok, tokenRightBrace))
 			}
